@@ -33,6 +33,17 @@ def _inputs(rng, tier):
         depth = rng.randrange(1, 4)
         anc = gen.mkcell(res - min(depth, res), bc, [0] * (res - min(depth, res)))
         sets.append(gen.children(anc, res))
+    # error detected in a LATER round: every family below a grandparent compacts in round 1, and the grandparent then
+    # has one child too many (digit 7 / the deleted sub-sequence of a pentagon) -> E_DUPLICATE_INPUT in round 2 or 3
+    for res, bc, depth in ((2, 20, 2), (2, 4, 2), (3, 33, 3), (3, 117, 3), (5, 64, 2)):
+        _, _, gd = gen.fields(gen.rand_cell(rng, res=res - depth, bc=bc))
+        gd = gd[:res - depth] if bc not in gen.PENT_SET else [0] * (res - depth)
+        tops = range(8) if bc not in gen.PENT_SET else range(7)
+        cells = []
+        for d1 in tops:
+            for rest in ([[a] for a in range(7)] if depth == 2 else [[a, b] for a in range(7) for b in range(7)]):
+                cells.append(gen.mkcell(res, bc, gd + [d1] + rest))
+        sets.append(cells)
     s = list(sets[0])
     if s:
         sets.append(s + [s[0]])                    # duplicate
